@@ -157,6 +157,12 @@ GoldDir(mix, zn, p) ==
   IN /\ Within(Mul(a("0", "0"), Abs(p["vu"])), Mul(a("0", "1"), Abs(p["vd"])), v)
      /\ Within(Mul(a("1", "0"), Abs(p["vd"])), Mul(a("1", "1"), Abs(p["vu"])), v)
 
+OffDiag(mix, zn, mG, mP, p) ==
+  LET z(i, k) == mix[zn \o "_" \o i \o k]
+      off == Add(Mul(Sq(mG), Mul(z("0", "0"), z("0", "1"))), Mul(Sq(mP), Mul(z("1", "0"), z("1", "1"))))
+      v2 == Add(Sq(p["vu"]), Sq(p["vd"]))
+  IN Within(Mul(off, v2), Mul(Sub(Sq(mP), Sq(mG)), Mul(p["vu"], p["vd"])), Mul(Max2(Sq(mP), Sq(mG)), v2))
+
 HiggsInvs(ev) ==
   LET p == ev.par  ms == ev.mass
       T == {ev.tach[i] : i \in DOMAIN ev.tach}
@@ -176,6 +182,10 @@ HiggsInvs(ev) ==
         I("Higgs:Orthogonal", Orth2(ev.mix, "ZH") /\ Orth2(ev.mix, "ZA") /\ Orth2(ev.mix, "ZP")),
         \* gauge invariance fixes the Goldstone directions: G^0, G^+- along (v_d, -v_u) up to a sign, the physical A, H^+-
         \* along (v_u, v_d); stated on magnitudes (independent of the sign conventions of the mixing matrices)
+        \* off-diagonal element of the reconstructed mass matrix: B mu [[tb, 1], [1, 1/tb]] + m_G^2 [[cb^2, -sb cb], [-sb cb, sb^2]]
+        \* (Feynman gauge) gives  (Z^T diag(m^2) Z)_01 = (m_phys^2 - m_G^2) sb cb,  sign included
+        I("Higgs:OffDiagonalA", quiet => OffDiag(ev.mix, "ZA", ms["MAh_00"], ms["MAh_10"], p)),
+        I("Higgs:OffDiagonalP", quiet => OffDiag(ev.mix, "ZP", ms["MHpm_00"], ms["MHpm_10"], p)),
         I("Higgs:GoldstoneDirectionA", quiet => GoldDir(ev.mix, "ZA", p)),
         I("Higgs:GoldstoneDirectionP", quiet => GoldDir(ev.mix, "ZP", p)),
         I("Higgs:Ordered", Le(ms["Mhh_00"], ms["Mhh_10"]) /\ Sgn(ms["Mhh_00"]) >= 0),
